@@ -11,66 +11,105 @@ HEADER = ("From ZV Require Import Common.Exec Notified.Notified Notified.Notifie
 
 
 # ------------------------------------------------------------------ case generation
-def seqs(alpha, maxlen, max_sets, max_subs, need_sub=True):
-    """All operation lists over `alpha` up to `maxlen` in which a subscriber is only polled or
-    dropped once it exists and is not dropped twice; values of the sets are 11, 12, ..."""
+# operations (JSON): ["set",h,v] ["get",h] ["sub",h] ["poll",s] ["dropsub",s] ["clone",h]
+# ["drophandle",h] ["notify",v] ["dropnotifier"] ["pollonce"]; h = handle index (0 = State::new)
+def seqs(alpha, maxlen, max_sets, max_subs, max_handles=1, need_sub=True):
+    """All operation lists over `alpha` (pairs (kind, index)) up to `maxlen` in which a handle /
+    subscriber is only used once it exists and is not dropped twice; the values of the sets are
+    11, 12, ..."""
     out = []
 
-    def rec(prefix, nset, nsub, dropped, state_alive):
+    def rec(prefix, nset, nsub, dsub, nh, dh):
         if prefix and (nsub >= 1 or not need_sub):
             out.append(list(prefix))
         if len(prefix) >= maxlen:
             return
-        for a in alpha:
-            if a == "set":
-                if nset < max_sets:
-                    prefix.append(["set", 11 + nset])
-                    rec(prefix, nset + 1, nsub, dropped, state_alive)
+        for k, i in alpha:
+            if k in ("set", "get", "sub", "clone", "drophandle"):
+                if i >= nh or i in dh:
+                    continue
+                if k == "set":
+                    if nset < max_sets:
+                        prefix.append(["set", i, 11 + nset])
+                        rec(prefix, nset + 1, nsub, dsub, nh, dh)
+                        prefix.pop()
+                elif k == "get":
+                    if not prefix or prefix[-1][0] != "get":
+                        prefix.append(["get", i])
+                        rec(prefix, nset, nsub, dsub, nh, dh)
+                        prefix.pop()
+                elif k == "sub":
+                    if nsub < max_subs:
+                        prefix.append(["sub", i])
+                        rec(prefix, nset, nsub + 1, dsub, nh, dh)
+                        prefix.pop()
+                elif k == "clone":
+                    if nh < max_handles:
+                        prefix.append(["clone", i])
+                        rec(prefix, nset, nsub, dsub, nh + 1, dh)
+                        prefix.pop()
+                else:
+                    prefix.append(["drophandle", i])
+                    rec(prefix, nset, nsub, dsub, nh, dh | {i})
                     prefix.pop()
-            elif a == "sub":
-                if nsub < max_subs and state_alive:
-                    prefix.append(["sub"])
-                    rec(prefix, nset, nsub + 1, dropped, state_alive)
+            elif k == "poll":
+                if i < nsub and i not in dsub:
+                    prefix.append(["poll", i])
+                    rec(prefix, nset, nsub, dsub, nh, dh)
                     prefix.pop()
-            elif a[0] == "poll":
-                if a[1] < nsub and a[1] not in dropped:
-                    prefix.append(["poll", a[1]])
-                    rec(prefix, nset, nsub, dropped, state_alive)
+            elif k == "dropsub":
+                if i < nsub and i not in dsub:
+                    prefix.append(["dropsub", i])
+                    rec(prefix, nset, nsub, dsub | {i}, nh, dh)
                     prefix.pop()
-            elif a[0] == "dropsub":
-                if a[1] < nsub and a[1] not in dropped:
-                    prefix.append(["dropsub", a[1]])
-                    rec(prefix, nset, nsub, dropped | {a[1]}, state_alive)
-                    prefix.pop()
-            elif a == "dropstate":
-                if state_alive:
-                    prefix.append(["dropstate"])
-                    rec(prefix, nset, nsub, dropped, False)
-                    prefix.pop()
-    rec([], 0, 0, frozenset(), True)
+    rec([], 0, 0, frozenset(), 1, frozenset())
     return out
 
 
 def random_ops(rng, max_sets, max_subs, length):
-    ops, nset, nsub, alive = [], 0, 0, True
-    repeat_vals = rng.random() < 0.15
-    kinds = ["set"] * 4 + ["sub"] * 2 + ["poll"] * 8 + ["dropsub"] + ["once"] * 2
+    ops, nset, nsub, nh, dh = [], 0, 0, 1, set()
+    repeat_vals = rng.random() < 0.25
+    kinds = ["set"] * 4 + ["sub"] * 2 + ["poll"] * 8 + ["dropsub"] + ["once"] * 2 + ["get"]
+    if rng.random() < 0.5:
+        kinds += ["clone", "drophandle"]
     if rng.random() < 0.3:
-        kinds += ["dropstate"]
+        kinds += ["drophandle"]
+
+    def handle():
+        live = [h for h in range(nh) if h not in dh]
+        if live and rng.random() < 0.93:
+            return rng.choice(live)
+        return rng.randrange(0, nh + 1)          # sometimes a dropped / not yet existing handle
     while len(ops) < length:
         k = rng.choice(kinds)
+        alive = len(dh) < nh
         if k == "set":
             if nset >= max_sets and alive:
                 continue
             v = rng.choice([11, 12]) if repeat_vals else 11 + nset
-            ops.append(["set", v])
+            ops.append(["set", handle(), v])
             nset += 1
+        elif k == "get":
+            ops.append(["get", handle()])
         elif k == "sub":
             if nsub >= max_subs and alive:
                 continue
-            ops.append(["sub"])
-            if alive:
+            h = handle()
+            ops.append(["sub", h])
+            if h < nh and h not in dh:
                 nsub += 1
+        elif k == "clone":
+            if nh >= 4:
+                continue
+            h = handle()
+            ops.append(["clone", h])
+            if h < nh and h not in dh:
+                nh += 1
+        elif k == "drophandle":
+            h = handle()
+            ops.append(["drophandle", h])
+            if h < nh:
+                dh.add(h)
         elif k == "poll":
             # mostly existing subscribers, sometimes one that does not exist (yet)
             s = rng.randrange(0, max(1, nsub)) if rng.random() < 0.95 else nsub + rng.randrange(0, 2)
@@ -79,9 +118,6 @@ def random_ops(rng, max_sets, max_subs, length):
                 ops.append(["poll", s])
         elif k == "dropsub":
             ops.append(["dropsub", rng.randrange(0, max(1, nsub))])
-        elif k == "dropstate":
-            ops.append(["dropstate"])
-            alive = False
         else:
             ops.append(rng.choice([["pollonce"], ["pollonce"], ["notify", 70 + rng.randrange(0, 9)],
                                    ["dropnotifier"]]))
@@ -103,8 +139,8 @@ def gen_cases(ck):
             if line.strip():
                 add(json.loads(line)["ops"], "corpus")
 
-    def family(tag, alpha, maxlen, max_sets, max_subs, need_sub=True):
-        ls = seqs(alpha, maxlen, max_sets, max_subs, need_sub)
+    def family(tag, alpha, maxlen, max_sets, max_subs, max_handles=1, need_sub=True):
+        ls = seqs(alpha, maxlen, max_sets, max_subs, max_handles, need_sub)
         # a list covers its prefixes (results are compared operation by operation): keep the
         # lists of full length and the shorter ones that cannot be extended
         full = [l for l in ls if len(l) == maxlen]
@@ -115,19 +151,31 @@ def gen_cases(ck):
         keep = full + [l for l in ls if len(l) < maxlen and json.dumps(l) not in pre]
         for l in keep:
             add(l, tag)
-        exhaustive[tag] = {"alphabet": [a if isinstance(a, str) else "%s%d" % a for a in alpha],
+        exhaustive[tag] = {"alphabet": ["%s%d" % a for a in alpha],
                            "max_len": maxlen, "max_sets": max_sets, "max_subs": max_subs,
+                           "max_handles": max_handles,
                            "op_lists_covered_including_prefixes": len(ls), "cases_run": len(keep)}
 
+    S = lambda h: ("set", h)
+    U = lambda h: ("sub", h)
     P = lambda i: ("poll", i)
     D = lambda i: ("dropsub", i)
+    C = lambda h: ("clone", h)
+    X = lambda h: ("drophandle", h)
+    G = lambda h: ("get", h)
     # (a) every interleaving of <= 4 sets with polls of 1..2 subscribers created at arbitrary points
-    family("sets_polls_2subs", ["set", "sub", P(0), P(1)], 10 if quick else 12, 4, 2)
+    family("sets_polls_2subs", [S(0), U(0), P(0), P(1)], 10 if quick else 12, 4, 2)
     # (b) the same with subscribers and the state being dropped
-    family("with_drops", ["set", "sub", P(0), P(1), D(0), D(1), "dropstate"], 7 if quick else 9, 4, 2)
+    family("with_drops", [S(0), U(0), P(0), P(1), D(0), D(1), X(0)], 7 if quick else 9, 4, 2)
     # (c) <= 6 sets, 3 subscribers: exhaustive up to the length bound
-    family("sets_polls_3subs", ["set", "sub", P(0), P(1), P(2)], 7 if quick else 10, 6, 3)
-    # (d) one-shot: every list of notify / drop / poll (notify before/after the first poll,
+    family("sets_polls_3subs", [S(0), U(0), P(0), P(1), P(2)], 7 if quick else 10, 6, 3)
+    # (d) several handles to one state: clone, set / subscribe / get through either handle, drop
+    #     either handle (a non-last drop must change nothing for the subscribers; the stream ends
+    #     only when all handles are gone and the buffered value was delivered)
+    family("handles_1sub", [S(0), S(1), U(0), U(1), P(0), C(0), X(0), X(1)], 8 if quick else 10, 3, 1, 2)
+    family("handles_2subs_get", [S(0), S(1), G(0), G(1), U(0), U(1), P(0), P(1), C(0), C(1), X(0), X(1), X(2), D(0)],
+           5 if quick else 6, 2, 2, 3)
+    # (e) one-shot: every list of notify / drop / poll (notify before/after the first poll,
     #     notifier dropped without notifying, repeated polls, second notify attempt)
     n1 = 5 if quick else 7
     once_lists = []
@@ -140,8 +188,9 @@ def gen_cases(ck):
     exhaustive["once"] = {"alphabet": ["pollonce", "notify", "dropnotifier"], "max_len": n1,
                           "op_lists_covered_including_prefixes": len(once_lists),
                           "cases_run": sum(1 for l in once_lists if len(l) == n1)}
-    # (e) seeded random: <= 6 sets, <= 3 subscribers, drops, one-shot operations interleaved
-    for i in range(3000 if quick else 40000):
+    # (f) seeded random: <= 6 sets (sometimes with repeated values), <= 3 subscribers, up to 4
+    #     handles, drops, gets, one-shot operations interleaved
+    for i in range(4000 if quick else 50000):
         add(random_ops(rng, 6, 3, rng.choice([8, 12, 16, 24, 32])), "random")
     return cases, exhaustive
 
@@ -150,15 +199,19 @@ def gen_cases(ck):
 def coq_op(o):
     k = o[0]
     if k == "set":
-        return "Set_ %d" % o[1]
+        return "Set_ %d %d" % (o[1], o[2])
+    if k == "get":
+        return "Get %d" % o[1]
     if k == "sub":
-        return "Subscribe"
+        return "Subscribe %d" % o[1]
     if k == "poll":
         return "Poll %d" % o[1]
     if k == "dropsub":
         return "DropSub %d" % o[1]
-    if k == "dropstate":
-        return "DropState"
+    if k == "clone":
+        return "CloneH %d" % o[1]
+    if k == "drophandle":
+        return "DropH %d" % o[1]
     if k == "notify":
         return "Notify %d" % o[1]
     if k == "dropnotifier":
@@ -187,6 +240,10 @@ def word(x):
         return "Item(%s,continues=%s)" % (x[2] if x[1] else "no-params", ["None", "Some(false)", "Some(true)"][x[3]])
     if x[0] == 7:
         return "sub#%d" % x[1]
+    if x[0] == 9:
+        return "get=%d" % x[1]
+    if x[0] == 10:
+        return "handle#%d" % x[1]
     return WORDS.get(x[0], str(x))
 
 
@@ -247,7 +304,7 @@ def shrink(ck, c, code_mask):
 
 def main():
     ck = Check(PID)
-    ck.prove(["Notified/NotifiedExec.v", "Notified/NotifiedProofs.v"], "props/C20.v",
+    ck.prove(["Notified/NotifiedExec.v", "Notified/NotifiedProofs.v", "Notified/NotifiedHandles.v"], "props/C20.v",
              extra_audit=["Notified/NotifiedExec.v"])
 
     exhaustive = {}
@@ -283,7 +340,7 @@ def main():
         small = c["ops"]
         if n_try <= 4 and not ck.replay and len(small) > 3:
             small = shrink(ck, c, 2 if code & 2 else 1)
-        key = json.dumps([[o[0]] + ([o[1]] if o[0] in ("poll", "dropsub") else []) for o in small])
+        key = json.dumps([[o[0]] + ([o[1]] if o[0] != "notify" and len(o) > 1 else []) for o in small])
         if key in seen_small:
             continue            # the same minimal scenario (up to the values) was already reported
         seen_small.add(key)
@@ -333,7 +390,8 @@ def main():
         "per-operation correspondence with the real crates on the generated operation lists",
         "one thread, one operation at a time, polls with a no-op waker and no runtime: wake-ups, locks and "
         "concurrent senders are outside the model; position counters are unbounded (no 2^64 wrap)",
-        "State is not cloned and the one-shot stream is not dropped before the notifier in the scenarios",
+        "the one-shot stream is not dropped before the notifier in the scenarios; State handles are cloned and "
+        "dropped freely (each clone is a handle to the same channel with its own value copy)",
     ]
     ck.finish(rule="a case = one operation list run against both crates; distinct by hash of the list; "
                    "non-trivial = at least two sets and a poll, or a one-shot notify/drop")
